@@ -47,6 +47,9 @@ CHECKS = {
     "C17": ("exploration", "runtime monitoring: every summary field recomputed from the emitted glyf/hmtx/vmtx/cmap tables and compared with head/hhea/vhea/maxp/OS-2",
             "For each font of a broad workload the head bbox, every glyph box (composites resolved through their transforms), hhea/vhea maxima, minima, extents and long-metric counts, maxp maxima, loca format, OS/2 average width, first/last character index and a committed table of unambiguous Unicode-range bits (+ bit 57) are recomputed from the tables alone and must be equal.",
             "Glyph boxes are required to cover all on-curve points and stay inside the control polygon (the spec allows either); usMaxContext and code-page bits are not recomputed; sources that set their Unicode ranges explicitly are exempt from the range bits.", "DESIGN.md §5 C17"),
+    "C20": ("exploration", "runtime monitoring: the same design compiled through every entry point / container / equal re-formatting, sha256 equality oracle",
+            "Each Glyphs file or UFO is compiled by the CLI, by the library entry points (path and in-memory text, built from the same rlibs in the same workspace), from an independently split .glyphspackage, from a one-source designspace carrying the same public.* keys, and from re-formatted but equal text; all outputs must be byte-identical to the CLI's.",
+            "The re-emitters change whitespace, plist key order, XML attribute order and optional quoting of identifier-like strings only; a route whose re-emitted source is rejected counts inconclusive. A designspace cannot express 'no axes', the wrapper uses a point axis with a private tag.", "DESIGN.md §5 C20"),
 }
 
 NOT_YET = {}
